@@ -445,3 +445,38 @@ Example C07_example_final :
   | None => False
   end.
 Proof. split; vm_compute; reflexivity. Qed.
+
+(* ========================================================================== *)
+(* HISTORY LEVEL, ALL OPERATIONS OF THE INTERPRETER (Proofs/ExecView.v): the
+   components u2 / u3 of the view are the element classes of the two Set
+   registers in slot order; [vstep] (a pure list function, see Props/C01.v for
+   the reading guide) says what they are after insert, replace, remove, take,
+   retain, clear, drain, extend (which stops at the first overflow and keeps
+   what it has inserted), iteration, clone / clone_from, collect, serde, Default
+   and the set-algebra calls (which change nothing), for every history.        *)
+(* ========================================================================== *)
+Require Import Proofs.ExecSafe Proofs.ExecUniq Proofs.ExecView.
+
+Theorem C07_history_run_view :
+  forall debug sc ops n0 n1 n2 n3,
+    honest sc -> Forall safe_op ops ->
+    Forall (fun o => match o with ODisjoint _ true qs _ => NoDup qs | _ => True end) ops ->
+    view_x (run_final debug sc ops (init_world n0 n1 n2 n3)) =
+    fold_left (fun vw o => vstep o vw) ops
+      {| v0 := []; v1 := []; u2 := []; u3 := [];
+         c0 := nat_of n0; c1 := nat_of n1; c2 := nat_of n2; c3 := nat_of n3 |}.
+Proof. exact run_view_init. Qed.
+Print Assumptions C07_history_run_view.
+
+(* capacity-3 set in register 2: three inserts, a duplicate, an extend whose second new
+   element overflows (5 is a member, 9 does not fit: the call panics and nothing more is
+   inserted), take of class 5 (the last element moves into its slot), retain dropping
+   class 7, register 3 := clone *)
+Example C07_example_vstep :
+  let ops := [SInsert 2 (mk 1 5); SInsert 2 (mk 2 6); SInsert 2 (mk 3 7); SInsert 2 (mk 4 6);
+              SExtend 2 [mk 5 5; mk 6 9; mk 7 4]; STake 2 (QCls 5); SRetain 2 1 [(7, 0)]; SClone 2 3]%N in
+  let vw := fold_left (fun vw o => vstep o vw) ops
+              {| v0 := []; v1 := []; u2 := []; u3 := []; c0 := 0; c1 := 0; c2 := 3; c3 := 3 |} in
+  u2 vw = [6]%N /\ u3 vw = [6]%N /\
+  view_x (run_final false {| sc_adv := false; sc_seed := 0; sc_fk := 0; sc_fa := 0 |} ops (init_world 0 0 3 3)) = vw.
+Proof. vm_compute. repeat split; reflexivity. Qed.
